@@ -85,7 +85,7 @@ class IndexTie:
             frags.append({
                 "name": str(fname),
                 "semantic": tree.fragment_type.name == "SEMANTIC",
-                "ign": bool(tree._ModelFile__ignore_uuid_dups),
+                "ign": bool(ol.private_state(tree).ignore_uuid_dups),
                 "tree": [entry_json(r) for r in scan[str(fname)]],
             })
         self.frag_index = {str(f): i for i, f in enumerate(loader.trees)}
